@@ -5,16 +5,21 @@ spec/Secure.tla (the capability gate state machine, model-checked over tables
 EXTRACTED FROM THE CURRENT TREE at check time), spec/Secure_Trace.tla
 (validation of what secure interpreters were observed doing).
 
-Extraction (nothing about the natives is written down here): the native names
-are the string literals compared with `native` in functions.py bind_native
-(via `ast`) plus `run`; for each one the function object is captured in front
-of the gate, its `secure` attribute is read and `osTouching` is *measured* by
-invoking it in a non-secure interpreter with path-like and command-like
-arguments inside a canary directory under an audit hook (plus recording
-wrappers for the stat family, which raises no audit event).  The module tables
-(which natives each bundled module's environment holds, what the base scripts
-bind, what a `require` loads) are read off interpreters whose gate is held
-open.
+Extraction (nothing about the natives is written down here): the names the
+binder knows are found by TRYING every string constant of the package's
+sources, every bind_native argument of the bundled modules and the name of
+every function class on an open gate (directly and through the language's
+bind_native), plus `run`; every function class of the package is classified,
+whether or not a name binds it.  For each one the function object is captured
+in front of the gate, its `secure` attribute is read and `osTouching` is
+*measured* by invoking it in a non-secure interpreter with the argument tuples
+of SecureOps!CallShapes (path-like and command-like arguments in every
+parameter position next to callbacks, streams, numbers, maps, ...; generated
+by TLC from spec/SecureCases.tla) inside a canary directory under an audit
+hook (plus recording wrappers for the stat family, which raises no audit
+event).  The module tables (which natives each bundled module's environment
+holds, what the base scripts bind, what a `require` loads) are read off
+interpreters whose gate is held open.
 
 Binding A: TLC explores Secure.tla and prints every transition with the
 expected observation; each behaviour is replayed as a program on
@@ -29,17 +34,21 @@ model's prediction and the code that the statement does not name are drift.
 """
 import ast
 import concurrent.futures as cf
+import glob
 import hashlib
 import io
 import json
 import multiprocessing
 import os
 import random
+import re
 import shutil
 import signal
+import subprocess
 import sys
 import sysconfig
 import tempfile
+import threading
 
 from .common import import_ckl, MachineryError, REPO
 from .tla import run_tlc
@@ -210,6 +219,15 @@ class Ctx:
             "M": _q(os.path.join(c, "newdir", "x")), "R": "'rel.txt'", "C": "'true'",
             "L": "[" + _q(os.path.join(c, "a.txt")) + "]", "T": "TRUE", "U": "'utf-8'",
             "X": "FALSE",
+            # companions (SecureOps!CompanionsMore).  The streams are made inside a function
+            # frame, so nothing is bound in the environment the call is made from.
+            "K": "(fn(a...) TRUE)", "J": "(fn(a, b = NULL, c = NULL) a)",
+            "I": "(fn() do bind_native('str_input'); str_input('c09-line\\nc09-line2') end)()",
+            "O": "(fn() do bind_native('str_output'); str_output() end)()",
+            "1": "1", "Z": "NULL", "E": "''",
+            "P": "<<<" + _q(os.path.join(c, "a.txt")) + " => " + _q(os.path.join(c, "new.txt")) + ">>>",
+            "B": "<*path = " + _q(os.path.join(c, "a.txt")) + ", name = " + _q(os.path.join(c, "new.txt"))
+                 + ", file = " + _q(os.path.join(c, "a.txt")) + "*>",
         }
 
     def build(self):
@@ -473,7 +491,7 @@ def observe(it, data, phase, osev, extra=()):
     bad = sorted(i for i in ids if forb.get(i, True)) + sorted("class:" + u for u in unknown)
     same = CTX.check_restore()
     ev = {"op": "obs", "phase": phase, "os": osev, "flag": read_flag(it),
-          "nbad": len(bad), "canary": bool(same)}
+          "nbad": len(bad), "canary": bool(same), "ran": False}
     return ev, {"bad": bad, "reach": ids, "objects": nobj}
 
 
@@ -486,13 +504,86 @@ def make_interp(sec, leg):
 
 
 # --------------------------------------------------------------------------
+# The case families of the specification, written out by TLC.
+_BASE_SHAPES = [
+    (), ("F",), ("D",), ("N",), ("S",), ("R",), ("C",), ("M",),
+    ("F", "N"), ("F", "D"), ("N", "F"), ("D", "T"), ("C", "L"), ("F", "U"), ("N", "U"), ("M", "T"),
+    ("S", "N"), ("F", "L"),
+    ("C", "L", "D"), ("N", "U", "T"), ("D", "T", "T"),
+    ("D", "T", "T", "T"), ("C", "L", "D", "X", "N"),
+]       # SecureOps!BaseShapes (checked against the export; used for the narrow sweeps)
+MAX_ARITY = 5
+
+
+def load_cases():
+    """spec/SecureCases.tla -> argument tuples per number of parameters, module
+    specs for `require`, command line cases."""
+    res = run_tlc("SecureCases", workers=1, timeout=600)
+    try:
+        sh = res.records("SHAPES")[0]
+        sp = res.records("SPECS")[0]
+        cli = res.records("CLI")[0]["cases"]
+    except (IndexError, KeyError):
+        raise MachineryError("SecureCases.tla printed no case tables")
+    shapes = {}
+    for tier in ("quick", "thorough"):
+        tab = [sorted({tuple(t) for t in row}) for row in sh[tier]]
+        if len(tab) != MAX_ARITY + 1 or not all(tab):
+            raise MachineryError("SecureCases.tla: malformed shape table")
+        shapes[tier] = tab
+    for t in _BASE_SHAPES:
+        if t not in shapes["quick"][max(1, min(len(t), MAX_ARITY))]:
+            raise MachineryError(f"SecureOps!BaseShapes and the harness disagree on {t}")
+
+    def spec_key(x):
+        return json.dumps(x, sort_keys=True)
+    specs = sorted(sp["all"], key=spec_key)
+    core = sorted(sp["core"], key=spec_key)
+    if not core or len(specs) < len(core):
+        raise MachineryError("SecureCases.tla: no module specs")
+    return {"shapes": shapes, "specs": specs, "core": core, "cli": sorted(cli, key=spec_key)}, res
+
+
+def shapes_for(cases, nargs, tier, wide=True):
+    """Argument tuples for a function of nargs parameters plus one call with
+    one argument too many."""
+    n = max(0, min(nargs, MAX_ARITY))
+    if wide:
+        tups = list(cases["shapes"][tier][n])
+    else:
+        tups = [t for t in _BASE_SHAPES if len(t) <= max(n, 1)]
+    over = [t for t in _BASE_SHAPES if len(t) == nargs + 1][:1]
+    return tups + [t for t in over if t not in tups]
+
+
+def usable_palette(it):
+    """Palette symbols whose program text evaluates in this interpreter (a
+    renamed helper native must not stop the sweep: its symbol is left out and
+    listed)."""
+    ok, missing = set(), []
+    for sym, text in CTX.pal.items():
+        out, _evs = recorded(lambda: it.interpret(text, "c09"), limit=20.0)
+        if out[0] == "val":
+            ok.add(sym)
+        else:
+            missing.append(sym)
+    CTX.check_restore()
+    return ok, sorted(missing)
+
+
+# --------------------------------------------------------------------------
 # Extraction.
-def native_names():
-    """String literals compared with `native` in bind_native of the current tree."""
+def ast_native_names():
+    """String literals compared with the name parameter inside bind_native
+    (the registration pattern of the tree this check was built on; only a
+    cross-check now)."""
     path = os.path.join(REPO, "src", "ckl", "functions.py")
-    with open(path, encoding="utf-8") as f:
-        tree = ast.parse(f.read())
     names = []
+    try:
+        with open(path, encoding="utf-8") as f:
+            tree = ast.parse(f.read())
+    except (OSError, SyntaxError):
+        return names
     for node in tree.body:
         if isinstance(node, ast.FunctionDef) and node.name == "bind_native":
             argname = node.args.args[1].arg if len(node.args.args) > 1 else "native"
@@ -503,9 +594,39 @@ def native_names():
                             if isinstance(k, ast.Constant) and isinstance(k.value, str):
                                 if k.value not in names:
                                     names.append(k.value)
-    if len(names) < 10:
-        raise MachineryError(f"bind_native: only {len(names)} native names found via ast")
     return names
+
+
+_PLAIN_NAME = re.compile(r"^[A-Za-z0-9_.:-]+$")
+_BIND_IN_CKL = re.compile(r"""bind_native\s*\(\s*(['"])(.*?)\1""")
+
+
+def candidate_names():
+    """Every string that could be a native name: all short string constants of
+    the package's Python sources and every first argument of bind_native in a
+    bundled module."""
+    cands = set()
+    pkg = os.path.join(REPO, "src", "ckl")
+    for py in sorted(glob.glob(os.path.join(pkg, "**", "*.py"), recursive=True)):
+        try:
+            with open(py, encoding="utf-8") as f:
+                tree = ast.parse(f.read())
+        except (OSError, SyntaxError):
+            continue
+        for k in ast.walk(tree):
+            if isinstance(k, ast.Constant) and isinstance(k.value, str):
+                v = k.value
+                if 0 < len(v) <= 64 and not any(ch.isspace() for ch in v) and "'" not in v and "\\" not in v:
+                    cands.add(v)
+    for ck in sorted(glob.glob(os.path.join(pkg, "**", "*.ckl"), recursive=True)):
+        try:
+            with open(ck, encoding="utf-8") as f:
+                for m in _BIND_IN_CKL.finditer(f.read()):
+                    if 0 < len(m.group(2)) <= 64 and "'" not in m.group(2) and "\\" not in m.group(2):
+                        cands.add(m.group(2))
+        except OSError:
+            continue
+    return sorted(cands)
 
 
 class open_gate:
@@ -549,70 +670,173 @@ def capture_native(name, alias=None):
             if isinstance(v, V.ValueFunc):
                 return v, None, None
         vals = list(env.map.values())
-        return None, (vals[0] if vals else None), None
+        if not vals:
+            return None, None, "nothing-bound"
+        return None, vals[0], None
 
 
-ARG_TUPLES = [
-    (), ("F",), ("D",), ("N",), ("S",), ("R",), ("C",), ("M",),
-    ("F", "N"), ("F", "D"), ("N", "F"), ("D", "T"), ("C", "L"), ("F", "U"), ("N", "U"), ("M", "T"),
-    ("S", "N"), ("F", "L"),
-    ("C", "L", "D"), ("N", "U", "T"), ("D", "T", "T"),
-    ("D", "T", "T", "T"), ("C", "L", "D", "X", "N"),
-]
+def capture_by_language(name, alias=None):
+    """The function object `bind_native('<name>')` binds when a program of a
+    non-secure interpreter says so (for a name only the language-level binder
+    knows).  -> func or None"""
+    try:
+        with open_gate():
+            it = make_interp(False, False)
+            before = dict(it.environment.map)
+            al = "" if alias is None else ", '" + alias + "'"
+            it.interpret(f"bind_native('{name}'{al})", "c09")
+    except Exception:  # noqa: BLE001
+        return None
+    if alias is not None:
+        v = it.environment.map.get(alias)
+        return v if isinstance(v, V.ValueFunc) else None
+    for k, v in it.environment.map.items():
+        if isinstance(v, V.ValueFunc) and before.get(k) is not v:
+            return v
+    return None
 
 
-def task_classify(name):
+def _subclasses(c):
+    out = []
+    for s in c.__subclasses__():
+        if s not in out:
+            out.append(s)
+        for t in _subclasses(s):
+            if t not in out:
+                out.append(t)
+    return out
+
+
+def function_classes():
+    """Function classes of the package: {qualname: instance or None}; the class
+    of the functions a program defines itself is left out."""
+    try:
+        lam = type(Interpreter(False, False).interpret("fn() 1", "c09"))
+    except Exception:  # noqa: BLE001
+        lam = None
+    out = {}
+    for c in _subclasses(V.ValueFunc):
+        if c is lam or not str(c.__module__).startswith("ckl"):
+            continue
+        try:
+            out[c.__qualname__] = c()
+        except Exception:  # noqa: BLE001
+            out[c.__qualname__] = None
+    return out
+
+
+def task_known(cands):
+    """Which of the candidate strings does the binder know?  Tried in front of
+    an open gate: directly (bind_native of the package) and through a program
+    of a non-secure interpreter.  Also the function classes of the package."""
+    classes = function_classes()
+    names = set(cands)
+    for q, inst in classes.items():
+        nm = getattr(inst, "name", None)
+        if isinstance(nm, str) and 0 < len(nm) <= 64 and "'" not in nm and "\\" not in nm:
+            names.add(nm)
+    names = sorted(names)
+    direct = {}
+    for n in names:
+        func, val, err = capture_native(n)
+        if err is None and (func is not None or val is not None):
+            direct[n] = type(func).__qualname__ if func is not None else ""
+    lang = []
+    lang_error = None
+    try:
+        with open_gate():
+            it = make_interp(False, False)
+            lst = "[" + ", ".join("'" + n + "'" for n in names if _PLAIN_NAME.match(n)) + "]"
+            r = it.interpret("def c09_ok = []; for c09_n in " + lst + " do do bind_native(c09_n); "
+                             "c09_ok = c09_ok + [c09_n]; catch all NULL end; end; c09_ok", "c09")
+        lang = [v.value for v in r.value]
+    except Exception as e:  # noqa: BLE001
+        lang_error = type(e).__name__ + ": " + str(e)[:120]
+    lang_only = []
+    for n in lang:
+        if n not in direct:
+            f = capture_by_language(n)
+            if f is not None:
+                direct[n] = type(f).__qualname__
+                lang_only.append(n)
+    return {"known": direct, "lang_only": lang_only, "lang_error": lang_error, "tried": len(names),
+            "classes": {q: inst is not None for q, inst in classes.items()}}
+
+
+def task_classify(arg):
     """Measure one native: secure attribute and what it does to the OS when
-    invoked directly (in front of the gate) in a non-secure interpreter."""
+    invoked directly (in front of the gate) in a non-secure interpreter.
+    arg = (id, cases, tier); id is a name the binder knows, `run`, or
+    `class:<QualName>` for a function class no name binds."""
+    name, cases, tier = arg
     with open_gate():                  # the measurement must not depend on the gate
         it = make_interp(False, False)
+    registered = None
+    err = val = None
     if name == "run":
         func = it.base_environment.map.get("run")
-        if func is None and hasattr(F, "FuncRun"):
-            func = F.FuncRun(it)
-        registered = "run" in it.base_environment.map
+        registered = func is not None
+        if func is None:
+            cls = getattr(F, "FuncRun", None)
+            try:
+                func = cls(it) if cls is not None else None
+            except Exception:  # noqa: BLE001
+                func = None
         if func is None:
             return {"id": name, "absent": True}
-        err = None
-        val = None
+    elif name.startswith("class:"):
+        func = function_classes().get(name[6:])
+        if func is None:
+            return {"id": name, "error": "not-instantiable"}
     else:
         func, val, err = capture_native(name)
-        registered = None
-    if err:
-        return {"id": name, "error": err}
+        if err:
+            func = capture_by_language(name)
+            if func is None:
+                return {"id": name, "error": err}
     if func is None:
-        return {"id": name, "isFunc": False, "secureAttr": True, "osTouching": False,
+        return {"id": name, "isFunc": False, "secureAttr": True, "osTouching": False, "known": True,
                 "fname": name, "cls": "", "touch": [], "unjudged": [], "takesAlias": False}
-    takes_alias = capture_native(name, "c09_alias")[0] is not None if name != "run" else False
+    takes_alias = False
+    if name != "run" and not name.startswith("class:"):
+        takes_alias = (capture_native(name, "c09_alias")[0] or capture_by_language(name, "c09_alias")) is not None
     it.environment.put("c09_f", func)
     touch = set()
     unjudged = set()
+    by_shape = {}
     ncalls = 0
     timeouts = 0
     try:
-        nargs = len(func.getArgNames())
+        argnames = list(func.getArgNames())
+        nargs = MAX_ARITY if any(str(a).endswith("...") for a in argnames) else len(argnames)
     except Exception:  # noqa: BLE001
-        nargs = 5
-    for tup in ARG_TUPLES:
-        if len(tup) > nargs + 1:
+        nargs = MAX_ARITY
+    usable, _missing = usable_palette(it)
+    for tup in shapes_for(cases, nargs, tier):
+        if any(a not in usable for a in tup):
             continue
         src = "c09_f(" + ", ".join(CTX.pal[a] for a in tup) + ")"
         out, evs = recorded(lambda: it.interpret(src, "c09"), limit=20.0)
         ncalls += 1
         if out[0] == "timeout":
             timeouts += 1
+        here = set()
         for e in evs:
             if permitted_os(e["kind"], e["cls"], False):
                 if e["kind"] not in JUDGED:
                     unjudged.add(e["kind"])
                 continue
-            touch.add(e["kind"] + ":" + e["cls"])
+            here.add(e["kind"] + ":" + e["cls"])
         if not CTX.check_restore():
-            touch.add("canary-changed")
+            here.add("canary-changed")
+        if here:
+            touch |= here
+            if len(by_shape) < 4:
+                by_shape[",".join(tup)] = sorted(here)
     return {"id": name, "isFunc": True, "secureAttr": bool(getattr(func, "secure", True)),
             "osTouching": bool(touch), "fname": str(func.name), "cls": type(func).__qualname__,
-            "takesAlias": takes_alias,
-            "touch": sorted(touch), "unjudged": sorted(unjudged), "calls": ncalls,
+            "takesAlias": takes_alias, "known": not name.startswith("class:"),
+            "touch": sorted(touch), "touchShapes": by_shape, "unjudged": sorted(unjudged), "calls": ncalls,
             "timeouts": timeouts, "registered": registered}
 
 
@@ -715,6 +939,90 @@ SHADOW_TXT = {f: t for f, _e, t in SHADOW_FORMS}
 ASSIGN_TXT = dict(ASSIGN_FORMS)
 
 
+SPELLINGS = {"plain": "M", "dir": "'x/M'", "dotdot": "'x/../M'", "abs": "'/x/M'", "cwd": "'./M'"}
+
+
+def spelled(m, spelling):
+    """SecureOps!RequireSpellings: the module named with a directory part."""
+    if spelling not in SPELLINGS:
+        raise MachineryError("unknown require spelling " + repr(spelling))
+    return SPELLINGS[spelling].replace("M", m)
+
+
+def foreign_text(spec, symbolic):
+    """SecureOps!ForeignSpecs -> the module spec as text."""
+    up = "<up-to-root>" if symbolic else "/".join([".."] * UP_COUNT)
+    can = "<canary>" if symbolic else CTX.canary.strip("/")
+    parts = list(spec["prefix"])
+    for c in spec["trav"]:
+        parts.append({"UP": up, "CAN": can, "ROOT": ""}.get(c, c))
+    parts.append(spec["target"])
+    return "/".join(parts)
+
+
+def foreign_program(spec):
+    """-> (program, canonical description)"""
+    out = []
+    for symbolic in (False, True):
+        txt = foreign_text(spec, symbolic)
+        c = spec["clause"]
+        if c == "plain":
+            p = f"require '{txt}'"
+        elif c == "unqualified":
+            p = f"require '{txt}' unqualified"
+        elif c == "as":
+            p = f"require '{txt}' as c09_m"
+        elif c == "import":
+            p = f"require '{txt}' import [c09_script_ran]"
+        elif c == "variable":
+            p = f"def c09_p = '{txt}'; require c09_p"
+        else:
+            raise MachineryError("unknown require clause " + repr(c))
+        if spec["modpath"] == "mods":
+            p = "def checkerlang_module_path = ['" + ("<modpath>" if symbolic else CTX.mods) + "']; " + p
+        out.append(p)
+    return out[0], out[1]
+
+
+UP_COUNT = 48      # more `..` than any module directory is deep
+
+
+def script_ran(it):
+    """Did a `require` run the canary's script file (it defines c09_script_ran)?"""
+    try:
+        return any("c09_script_ran" in env.map or
+                   any(isinstance(v, V.ValueObject) and "c09_script_ran" in v.value for v in env.map.values())
+                   for env in interp_roots(it))
+    except Exception:  # noqa: BLE001
+        return False
+
+
+def construct_other(cfg, when="after"):
+    """The host constructs another interpreter in this process (not a program
+    action: not recorded).  It stays alive."""
+    sec, leg = cfg[0] == "1", cfg[1] == "1"
+    was = Rec.on
+    Rec.on = False
+    try:
+        signal.setitimer(signal.ITIMER_REAL, BOOT_LIMIT)
+        try:
+            other = Interpreter(sec, leg)
+        finally:
+            signal.setitimer(signal.ITIMER_REAL, 0)
+    except BaseException as e:  # noqa: BLE001
+        other = None
+        _OTHERS.append(("failed", type(e).__name__))
+    finally:
+        Rec.on = was
+    _OTHERS.append(other)
+    if when == "before":
+        return f"[host, before this interpreter is constructed: Interpreter(secure={sec}, legacy={leg})]"
+    return f"[host: Interpreter(secure={sec}, legacy={leg})]"
+
+
+_OTHERS = []
+
+
 def action_program(act, data, k, it):
     """-> (program text, canonical description, user module text or None)"""
     a = act["a"]
@@ -730,7 +1038,10 @@ def action_program(act, data, k, it):
         else:
             prog = desc = call
     elif a == "require":
-        prog = desc = "require " + act["m"] + (" unqualified" if act["form"] == "unq" else "")
+        prog = desc = "require " + spelled(act["m"], act.get("alias") or "plain") + \
+            (" unqualified" if act["form"] == "unq" else "")
+    elif a == "foreign":
+        prog, desc = foreign_program(act["spec"])
     elif a == "shadow":
         t = SHADOW_TXT[act["form"]]
         prog = desc = t
@@ -755,6 +1066,9 @@ def action_program(act, data, k, it):
 
 
 def run_action(it, act, data, k):
+    if act["a"] == "other":
+        desc = construct_other(act["m"], act["form"])
+        return ("val", None), [], desc
     prog, desc, um = action_program(act, data, k, it)
     if um is not None:
         with open(os.path.join(CTX.mods, f"um{k}.ckl"), "w") as f:
@@ -781,7 +1095,7 @@ def _model_drift(post, sec, leg, it, det, ev, outcome, data):
     if outcome is not None:
         raised = outcome != "val"
         if post["raises"] == "yes" and not raised:
-            drift.append(("assignment-form-did-not-raise", {}))
+            drift.append(("form-did-not-raise", {}))
         if post["raises"] == "no" and raised:
             drift.append(("action-raised:" + outcome, {}))
     if not sec and ev["flag"] in ("TRUE", "FALSE") and post["flag"] != (ev["flag"] == "TRUE"):
@@ -829,28 +1143,43 @@ def _in_fork(fn):
     return out["ok"]
 
 
+def _is_before(act):
+    return act is not None and act.get("a") == "other" and act.get("form") == "before"
+
+
 def task_edges(args):
     """Replay one group of model behaviours that share (configuration, history
     prefix): boot and run the prefix once, then every last action on a forked
-    copy of that interpreter.
+    copy of that interpreter.  An `other`/`before` entry (first of a history
+    only) makes the host construct the other interpreter before this one.
     -> {"sec","leg","prefix": [obs items], "lasts": [obs items], ...}"""
     data, sec, leg, prefix, lasts = args
     for f in os.listdir(CTX.mods):
         os.remove(os.path.join(CTX.mods, f))
     res = {"sec": sec, "leg": leg, "hist": prefix, "prefix": [], "lasts": [], "drift": []}
-    holder = {}
 
-    def boot():
-        holder["it"] = make_interp(sec, leg)
-    out, evs = recorded(boot, limit=BOOT_LIMIT, req=True)
+    def boot_new():
+        holder = {}
+
+        def boot():
+            holder["it"] = make_interp(sec, leg)
+        out, evs = recorded(boot, limit=BOOT_LIMIT, req=True)
+        return out, evs, holder.get("it")
+    pre = ""
+    if prefix and _is_before(prefix[0]):
+        pre = construct_other(prefix[0]["m"], "before")
+    out, evs, it = boot_new()
     if out[0] != "val":
         res["boot_failed"] = out[1] or out[0]
         return res
-    it = holder["it"]
     ev, det = observe(it, data, "boot", evs)
-    res["prefix"].append({"event": ev, "desc": "Interpreter(secure=%s, legacy=%s)" % (sec, leg),
-                          "bad": det["bad"]})
+    bootdesc = "Interpreter(secure=%s, legacy=%s)" % (sec, leg)
+    res["prefix"].append({"event": ev, "desc": bootdesc, "bad": det["bad"]})
     for k, act in enumerate(prefix):
+        if k == 0 and pre:
+            ev, det = observe(it, data, "act", [])       # the same interpreter, seen as the model's first entry
+            res["prefix"].append({"event": ev, "desc": pre, "bad": det["bad"]})
+            continue
         out, evs, desc = run_action(it, act, data, k)
         ev, det = observe(it, data, "act", evs)
         res["prefix"].append({"event": ev, "desc": desc, "bad": det["bad"]})
@@ -862,10 +1191,19 @@ def task_edges(args):
             continue
 
         def one(last=last):
-            out, evs, desc = run_action(it, last["act"], data, k)
-            ev, det = observe(it, data, "act", evs)
+            me = it
+            if _is_before(last["act"]):
+                desc = construct_other(last["act"]["m"], "before")
+                out, evs, me = boot_new()
+                if out[0] != "val":
+                    return {"boot_failed": str(out[1] or out[0]), "desc": desc}
+                evs = []                 # the construction was judged with the boot state already
+            else:
+                out, evs, desc = run_action(me, last["act"], data, k)
+            ev, det = observe(me, data, "act", evs)
+            ev["ran"] = script_ran(me)
             outcome = out[0] if out[0] != "exc" else "exc:" + str(out[1])
-            drift = _model_drift(last["post"], sec, leg, it, det, ev, outcome, data) if last.get("post") else []
+            drift = _model_drift(last["post"], sec, leg, me, det, ev, outcome, data) if last.get("post") else []
             return {"event": ev, "desc": desc, "bad": det["bad"], "outcome": outcome, "drift": drift}
         item = _in_fork(one)
         item["act"] = last["act"]
@@ -873,14 +1211,18 @@ def task_edges(args):
     return res
 
 
-def task_gate(data):
+def task_gate(args):
     """Direct calls of the binder on a bare environment whose base flag is
     TRUE: bind_native(env, id) and bind_native(env, id, alias) for every id.
-    Needs no bootable interpreter."""
+    Needs no bootable interpreter.  The decision must be that of the
+    environment handed in, not of whatever interpreter this process built
+    last: a non-secure interpreter is constructed first (when one can be)."""
+    data, ids = args
     classmap, forb = data["classmap"], data["forbidden"]
     out = []
-    for nid in data["ids"]:
-        if nid == "run":
+    host = construct_other("00")
+    for nid in ids:
+        if nid == "run" or nid.startswith("class:"):
             continue
         for alias in (None, "a_" + nid, FLAG):
             base = F.get_none_environment()
@@ -892,34 +1234,25 @@ def task_gate(data):
             v = base.map.get(FLAG)
             flag = "TRUE" if isinstance(v, V.ValueBoolean) and v.value is True else "other"
             same = CTX.check_restore()
-            ev = {"op": "obs", "phase": "gate", "os": evs, "flag": flag, "nbad": len(bad), "canary": same}
+            ev = {"op": "obs", "phase": "gate", "os": evs, "flag": flag, "nbad": len(bad), "canary": same,
+                  "ran": False}
             al = "" if alias is None else ", '" + alias + "'"
-            out.append({"event": ev, "desc": f"bind_native(env, '{nid}'{al}) on a bare environment with the flag on",
+            out.append({"event": ev, "desc": f"{host} ; bind_native(env, '{nid}'{al}) on a bare environment with the flag on",
                         "bad": bad, "case": {"kind": "gate", "id": nid, "alias": alias}})
     return out
 
 
 # --------------------------------------------------------------------------
 # Binding B: invoke every symbol with path-like / command-like arguments.
-_PATHISH = ("F", "D", "N", "S", "R", "C", "M", "L")
-MORE_TUPLES = [(a, b) for a in _PATHISH for b in _PATHISH if (a, b) not in ARG_TUPLES] + \
-              [(a, b, c) for a in ("F", "D", "C") for b in ("N", "L", "T") for c in ("D", "T", "U")
-               if (a, b, c) not in ARG_TUPLES]
-
-
-def sym_tuples(nargs, quick):
-    """Argument tuples for a function of nargs parameters: all that fit, plus
-    one with one argument too many."""
-    pool = ARG_TUPLES if quick else ARG_TUPLES + MORE_TUPLES
-    tups = [t for t in pool if len(t) <= max(nargs, 1)]
-    over = [t for t in ARG_TUPLES if len(t) == nargs + 1][:1]
-    return tups + over
-
-
 def task_calls(args):
     """One secure interpreter, one setup (`base`, `require M`, `require M
-    unqualified`), all symbols x argument tuples."""
-    data, leg, form, mod, quick = args
+    unqualified`), all symbols x argument tuples.  wide: the tuples of
+    SecureOps!CallShapes (every function value is met through several access
+    paths - the module object, the unqualified import, the legacy base
+    environment; the wide family is used on the module object and the base
+    environment, the tuples of the first round on the unqualified import,
+    where in addition the host constructs a non-secure interpreter in between)."""
+    data, cases, leg, form, mod, tier, wide = args
     res = {"leg": leg, "form": form, "mod": mod, "items": [], "nsym": 0, "nfunc": 0, "ncalls": 0,
            "timeouts": 0, "drift": []}
     holder = {}
@@ -933,16 +1266,22 @@ def task_calls(args):
     it = holder["it"]
     ev, det = observe(it, data, "boot", evs)
     setup = "" if form == "base" else "require " + mod + (" unqualified" if form == "unq" else "")
+    host = ""
     res["items"].append({"event": ev, "desc": f"Interpreter(secure=True, legacy={leg})", "bad": det["bad"],
                          "case": {"kind": "call", "leg": leg, "setup": "", "src": ""}})
+    if form == "unq":
+        host = construct_other("01" if not leg else "00") + " ; "
     if setup:
         out, evs = recorded(lambda: it.interpret(setup, "c09"), limit=ACT_LIMIT)
         ev, det = observe(it, data, "act", evs)
-        res["items"].append({"event": ev, "desc": setup, "bad": det["bad"],
+        res["items"].append({"event": ev, "desc": host + setup, "bad": det["bad"],
                              "case": {"kind": "call", "leg": leg, "setup": setup, "src": ""}})
         if out[0] != "val":
             res["drift"].append(("module-does-not-load-in-secure-mode", {"module": mod, "outcome": out[1] or out[0]}))
             return res
+    usable, missing = usable_palette(it)
+    if missing:
+        res["drift"].append(("palette-symbol-does-not-evaluate", {"symbols": missing, "legacy": leg}))
     if form == "base":
         syms = list(it.environment.getSymbols())
         lookup = lambda s: it.environment.get(s)   # noqa: E731
@@ -968,10 +1307,10 @@ def task_calls(args):
             try:
                 nargs = len([a for a in val.getArgNames()])
                 if any(str(a).endswith("...") for a in val.getArgNames()):
-                    nargs = 5
+                    nargs = MAX_ARITY
             except Exception:  # noqa: BLE001
-                nargs = 5
-            tups = sym_tuples(nargs, quick)
+                nargs = MAX_ARITY
+            tups = [t for t in shapes_for(cases, nargs, tier, wide) if all(a in usable for a in t)]
         else:
             tups = [None]
         for ti, tup in enumerate(tups):
@@ -996,61 +1335,111 @@ def task_calls(args):
                 ids, unknown, _n = reachable([holder["r"]], data["classmap"])
                 bad = sorted(i for i in ids if data["forbidden"].get(i, True)) + sorted("class:" + u for u in unknown)
                 ev = {"op": "obs", "phase": "call", "os": evs, "flag": read_flag(it),
-                      "nbad": len(bad), "canary": CTX.check_restore()}
-            res["items"].append({"event": ev, "desc": (setup + "; " if setup else "") + sym, "bad": bad,
-                                 "case": {"kind": "call", "leg": leg, "setup": setup,
+                      "nbad": len(bad), "canary": CTX.check_restore(), "ran": False}
+            res["items"].append({"event": ev, "desc": host + (setup + "; " if setup else "") + sym, "bad": bad,
+                                 "case": {"kind": "call", "leg": leg, "setup": setup, "wide": bool(wide),
                                           "sym": ref(s), "args": list(tup) if tup is not None else None}})
     return res
 
 
-REQUIRE_FORMS = [
-    # `require` handed path-like module specs (UP = ../ up to the root from the
-    # bundled module directory, CAN = the canary directory)
-    ("require 'UPCAN/script'", "require '<up-to-root>/<canary>/script'"),
-    ("require 'UPCAN/script.ckl'", "require '<up-to-root>/<canary>/script.ckl'"),
-    ("require 'UPCAN/script' unqualified", "require '<up-to-root>/<canary>/script' unqualified"),
-    ("require 'UPCAN/script' as c09_m", "require '<up-to-root>/<canary>/script' as c09_m"),
-    ("require 'UPCAN/script' import [c09_script_ran]",
-     "require '<up-to-root>/<canary>/script' import [c09_script_ran]"),
-    ("def c09_p = 'UPCAN/script'; require c09_p", "def p = '<up-to-root>/<canary>/script'; require p"),
-    ("require 'UPCAN/a.txt'", "require '<up-to-root>/<canary>/a.txt'"),
-    ("require 'CAN/script'", "require '<canary>/script'"),
-    ("require 'CAN/script.ckl'", "require '<canary>/script.ckl'"),
-    ("require '../cwd/../script'", "require '../cwd/../script'"),
-    ("require 'script'", "require 'script'"),
-    ("require 'rel.txt'", "require 'rel.txt'"),
-]
-
-
 def task_requires(args):
-    """`require` with path-like module specs in a secure interpreter (one fresh
-    interpreter per form)."""
-    data, leg = args
-    up = "../" * (MODDIR.count(os.sep) + 2)
+    """`require` with module specs that name no module (SecureOps!ForeignSpecs)
+    in secure interpreters: prefix x traversal x target x clause x module path
+    setting.  One interpreter serves many specs; it is replaced as soon as a
+    require succeeded, defined or loaded anything."""
+    data, leg, specs = args
     res = {"leg": leg, "items": []}
-    for tmpl, desc in REQUIRE_FORMS:
-        holder = {}
+    it = None
+    for spec in specs:
+        if it is None:
+            holder = {}
 
-        def boot():
-            holder["it"] = make_interp(True, leg)
-        out, _evs = recorded(boot, limit=BOOT_LIMIT, req=True)
-        if out[0] != "val":
-            res["boot_failed"] = out[1] or out[0]
-            return res
-        it = holder["it"]
-        prog = tmpl.replace("UPCAN", up + CTX.canary.lstrip("/")).replace("CAN", CTX.canary)
+            def boot():
+                holder["it"] = make_interp(True, leg)
+            out, _evs = recorded(boot, limit=BOOT_LIMIT, req=True)
+            if out[0] != "val":
+                res["boot_failed"] = out[1] or out[0]
+                return res
+            it = holder["it"]
+            nmods = len(getattr(it.base_environment, "modules", {}))
+            nsyms = len(it.environment.map)
+        prog, desc = foreign_program(spec)
         out, evs = recorded(lambda: it.interpret(prog, "c09"), limit=ACT_LIMIT)
-        ev, det = observe(it, data, "act", evs)
-        ran = False
-        try:
-            ran = any("c09_script_ran" in env.map or
-                      any(isinstance(v, V.ValueObject) and "c09_script_ran" in v.value for v in env.map.values())
-                      for env in interp_roots(it))
-        except Exception:  # noqa: BLE001
-            pass
+        ran = script_ran(it)
+        changed = (out[0] == "val" or ran or len(getattr(it.base_environment, "modules", {})) != nmods)
+        if changed or any(not permitted_os(e["kind"], e["cls"], e["req"]) for e in evs):
+            ev, det = observe(it, data, "act", evs)
+            bad = det["bad"]
+        else:
+            # nothing was loaded: only this require's OS events, the flag and the canary are new
+            ev = {"op": "obs", "phase": "act", "os": evs, "flag": read_flag(it), "nbad": 0,
+                  "canary": CTX.check_restore(), "ran": False}
+            bad = []
+        ev["ran"] = bool(ran)
         res["items"].append({"event": ev, "desc": desc + (" [the script file was run]" if ran else ""),
-                             "bad": det["bad"], "case": {"kind": "require", "leg": leg, "form": tmpl}})
+                             "bad": bad, "case": {"kind": "require", "leg": leg, "spec": spec},
+                             "raised": out[0] != "val"})
+        if changed or len(it.environment.map) != nsyms:
+            it = None
     return res
+
+
+# --------------------------------------------------------------------------
+# The command line front ends: how a user obtains a secure-mode interpreter.
+_CLI_FLAGS = {"secure": "--secure", "legacy": "--legacy"}
+
+
+def cli_probe_lines(forb):
+    """A program that reports, on its standard output, the flag it sees and
+    which forbidden natives it can bind.  One statement per line (the repl
+    reads lines).  forb: [(native name, name the function carries)]"""
+    lines = ["println('C09:flag=' + string(checkerlang_secure_mode));"]
+    for n, fname in forb:
+        if not _PLAIN_NAME.match(n) or not re.match(r"^[A-Za-z_][A-Za-z0-9_]*$", fname) or n == "run":
+            continue
+        lines.append(f"println('C09:bind:{n}=' + (do bind_native('{n}'); "
+                     f"if is_func({fname}) then 'bound' else 'no' catch all 'no' end));")
+    lines.append("println('C09:run=' + (do if is_func(run) then 'bound' else 'no' catch all 'no' end));")
+    lines.append("println('C09:done');")
+    return lines
+
+
+def run_cli(case, forb, root):
+    """Start one front end with the options of the case; -> observation dict."""
+    d = tempfile.mkdtemp(prefix="cli-", dir=root)
+    lines = cli_probe_lines(forb)
+    script = os.path.join(d, "probe.ckl")
+    with open(script, "w") as f:
+        f.write("\n".join(lines) + "\n")
+    opts = [_CLI_FLAGS[o] for o in case["opts"]]
+    env = dict(os.environ, PYTHONPATH=os.path.join(REPO, "src"), HOME=d, PYTHONHASHSEED="0")
+    if case["fe"] == "run":
+        cmd = [sys.executable, "-m", "ckl.run"] + opts + [script]
+        stdin = ""
+    else:
+        cmd = [sys.executable, "-m", "ckl.repl"] + opts
+        stdin = "\n".join(lines) + "\nexit\n"
+    err = ""
+    try:
+        p = subprocess.run(cmd, input=stdin, capture_output=True, text=True, env=env, cwd=d, timeout=300)
+        out, err, rc = p.stdout, p.stderr, p.returncode
+    except (subprocess.TimeoutExpired, OSError) as e:
+        out, rc = "", type(e).__name__
+    obs = {"fe": case["fe"], "opts": list(case["opts"]), "rc": rc, "flag": None, "bound": [], "done": False}
+    for m in re.finditer(r"C09:([a-z]+)(?::([^=\s]+))?=?(\S*)", out):
+        kind, name, val = m.group(1), m.group(2), m.group(3)
+        if kind == "flag":
+            obs["flag"] = val
+        elif kind == "bind" and val == "bound":
+            obs["bound"].append(name)
+        elif kind == "run" and val == "bound":
+            obs["bound"].append("run")
+        elif kind == "done":
+            obs["done"] = True
+    if not obs["done"]:
+        obs["tail"] = (out + err)[-300:]
+    shutil.rmtree(d, ignore_errors=True)
+    return obs
 
 
 # --------------------------------------------------------------------------
@@ -1108,16 +1497,39 @@ def group_edges(edges, chunk=80):
     return out
 
 
-def extract(root, tier, seed):
-    names = native_names()
-    pool = Pool(root)
+def extract(root, tier, seed, cases, pool=None, cands=None):
+    if cands is None:
+        cands = candidate_names()
+    astn = ast_native_names()
+    own = pool is None
+    if own:
+        pool = Pool(root)
     try:
-        rows = pool.map(task_classify, names + ["run"])
+        kn = pool.map(task_known, [cands])[0]
+        names = sorted(kn["known"])
+        if len(names) < 10:
+            raise MachineryError(f"only {len(names)} of {kn['tried']} candidate strings are names the binder knows")
+        covered = set(kn["known"].values())
+        class_ids = sorted("class:" + q for q in kn["classes"] if q not in covered)
+        rows = pool.map(task_classify, [(n, cases, tier) for n in names + ["run"] + class_ids])
         natives = {}
-        info = {"bind_errors": [], "insecure_not_observed_touching": [], "unjudged": {}}
+        info = {"bind_errors": [], "insecure_not_observed_touching": [], "unjudged": {},
+                "candidates_tried": kn["tried"], "names_known": len(names),
+                "names_only_the_language_binder_knows": kn["lang_only"],
+                "names_known_but_not_in_the_comparison_chain": sorted(set(names) - set(astn)),
+                "names_in_the_comparison_chain_but_not_known": sorted(set(astn) - set(names)),
+                "function_classes": len(kn["classes"]), "classes_no_name_binds": [],
+                "classes_not_instantiable": [], "language_binder_error": kn["lang_error"]}
+        runcls = next((r.get("cls") for r in rows if r["id"] == "run"), None)
         for r in rows:
             if r.get("absent"):
                 continue
+            if r["id"].startswith("class:"):
+                if r.get("error"):
+                    if r["id"][6:] != runcls:
+                        info["classes_not_instantiable"].append(r["id"][6:])
+                    continue
+                info["classes_no_name_binds"].append(r["id"][6:])
             if r.get("error"):
                 info["bind_errors"].append(r["id"] + ":" + r["error"])
                 continue
@@ -1135,22 +1547,24 @@ def extract(root, tier, seed):
                 classmap[r["cls"]] = nid
         tables = pool.map(task_tables, [classmap])[0]
     finally:
-        pool.close()
+        if own:
+            pool.close()
     has_run = "run" in natives and bool(natives["run"].get("registered"))
     forbidden = {nid: bool(r["osTouching"] or not r["secureAttr"]) for nid, r in natives.items()}
     insecure = sorted(nid for nid, r in natives.items() if not r["secureAttr"])
     touching = sorted(nid for nid, r in natives.items() if r["osTouching"])
-    cand = [i for i in insecure if i != "run" and i in touching] or [i for i in touching if i != "run"] \
-        or [i for i in insecure if i != "run"]
+    bindable = {nid for nid, r in natives.items() if r.get("known") and nid != "run"}
+    cand = [i for i in insecure if i in bindable and i in touching] or [i for i in touching if i in bindable] \
+        or [i for i in insecure if i in bindable]
     if not cand:
         raise MachineryError("extraction found no OS-touching and no insecure native: nothing to check "
                              "(classification blind?)")
     probe = sorted(cand)[0]
     rng = random.Random(seed)
     secure_ids = sorted(nid for nid, r in natives.items()
-                        if r["isFunc"] and not forbidden[nid] and nid not in ("bind_native", "run"))
+                        if r["isFunc"] and not forbidden[nid] and nid in bindable and nid != "bind_native")
     quick = tier == "quick"
-    forb_ids = sorted(i for i in forbidden if forbidden[i] and i != "run")
+    forb_ids = sorted(i for i in forbidden if forbidden[i] and i in bindable)
     mods = tables["modules"]
     hot = [m for m in mods if any(forbidden.get(b["id"], True) for b in tables["moduleBinds"].get(m, []))]
     rest = [m for m in mods if m not in hot]
@@ -1179,7 +1593,8 @@ def extract(root, tier, seed):
     bootmod = both[0]
     data = {
         "natives": {nid: {"secureAttr": r["secureAttr"], "osTouching": r["osTouching"],
-                          "isFunc": r["isFunc"], "fname": r["fname"], "takesAlias": r["takesAlias"]}
+                          "isFunc": r["isFunc"], "fname": r["fname"], "takesAlias": r["takesAlias"],
+                          "known": bool(r.get("known"))}
                     for nid, r in natives.items()},
         "moduleBinds": tables["moduleBinds"], "moduleLoads": tables["moduleLoads"],
         "baseBinds": tables["baseBinds"], "bootLoads": tables["bootLoads"],
@@ -1188,6 +1603,7 @@ def extract(root, tier, seed):
         "shadowForms": [{"form": f, "env": e} for f, e, _t in SHADOW_FORMS],
         "assignForms": [f for f, _t in ASSIGN_FORMS],
         "secureModes": [True, False],
+        "otherConfigs": ["00", "01"] if quick else ["00", "01", "10", "11"],
     }
     side = {"classmap": classmap, "forbidden": forbidden, "ids": sorted(natives), "modules": mods,
             "bootmod": bootmod, "bootsym": "", "probe": probe, "natives": data["natives"],
@@ -1214,13 +1630,23 @@ def act_str(side, act):
         s = f"bind_native('{act['id']}'{al})"
         return s if act["env"] == "(session)" else f"[user module: {s}]"
     if a == "require":
-        return "require " + act["m"] + (" unqualified" if act["form"] == "unq" else "")
+        return "require " + spelled(act["m"], act.get("alias") or "plain") + \
+            (" unqualified" if act["form"] == "unq" else "")
+    if a == "other":
+        return f"[host constructs Interpreter {act['m']} {act['form']}]"
+    if a == "foreign":
+        return "require '" + foreign_text(act["spec"], True) + "' (" + act["spec"]["clause"] + \
+            ", module path " + act["spec"]["modpath"] + ")"
     return a + ":" + act["form"]
 
 
 def summarize_os(ev):
     return ",".join(sorted({o["kind"] + ":" + o["cls"] + ("" if o["req"] else "!") for o in ev["os"]
                             if not permitted_os(o["kind"], o["cls"], o["req"])}))
+
+
+def new_event(leg, via="ctor", secure=True):
+    return {"op": "new", "via": via, "opts": (["secure"] if secure else []) + (["legacy"] if leg else [])}
 
 
 def validate(run, events, metas, label, selftest=True):
@@ -1232,11 +1658,11 @@ def validate(run, events, metas, label, selftest=True):
         good = {"op": "obs", "phase": "selftest", "os": [{"kind": "read", "cls": "bundled", "req": True},
                                                        {"kind": "env", "cls": "none", "req": False},
                                                        {"kind": "stat", "cls": "usermods", "req": True}],
-                "flag": "TRUE", "nbad": 0, "canary": True}
-        allev.append({"op": "new", "sec": True, "leg": False})
+                "flag": "TRUE", "nbad": 0, "canary": True, "ran": False}
+        allev.append(new_event(False))
         allev.append(good)
         for field, val, why in (("flag", "FALSE", "flag-changed"), ("nbad", 1, "forbidden-native-reachable"),
-                                ("canary", False, "canary-changed"),
+                                ("canary", False, "canary-changed"), ("ran", True, "script-file-run"),
                                 ("os", [{"kind": "read", "cls": "canary", "req": False}], "os-event"),
                                 ("os", [{"kind": "read", "cls": "bundled", "req": False}], "os-event"),
                                 ("os", [{"kind": "stat", "cls": "canary", "req": True}], "os-event"),
@@ -1246,6 +1672,13 @@ def validate(run, events, metas, label, selftest=True):
             e[field] = val
             allev.append(e)
             expect[len(allev)] = why
+        # a front end asked for a secure interpreter and the program sees the flag off: rejected;
+        # an interpreter that was not asked to be secure is not judged
+        allev.append(new_event(True, via="run"))
+        allev.append(dict(good, phase="cli", flag="FALSE"))
+        expect[len(allev)] = "front-end-not-secure"
+        allev.append({"op": "new", "via": "run", "opts": ["legacy"]})
+        allev.append(dict(good, phase="cli", flag="FALSE", nbad=3))
     d = tempfile.mkdtemp(prefix="c09-")
     path = os.path.join(d, "trace.ndjson")
     try:
@@ -1283,6 +1716,13 @@ def validate(run, events, metas, label, selftest=True):
         elif why == "canary-changed":
             tail = "canary"
             what = f"canary-changed: `{desc}` changed the canary directory"
+        elif why == "script-file-run":
+            tail = "script-run"
+            what = f"script-file-run: `{desc}` in a secure interpreter ran a script file that is no module"
+        elif why == "front-end-not-secure":
+            tail = "flag:" + str(ev["flag"])
+            what = (f"front-end-not-secure: `{desc}` was asked for a secure-mode interpreter and the program "
+                    f"sees checkerlang_secure_mode = {ev['flag']}")
         else:
             tail = why
             what = f"{why}: {desc}"
@@ -1327,21 +1767,69 @@ def _run(run, quick, root):
     _t("start")
     pool = Pool(os.path.join(root, "r"))                       # replays (fork per action)
     cpool = Pool(os.path.join(root, "c"), max(2, NWORKERS // 2))   # call sweeps (may grow large)
+    xpool = Pool(os.path.join(root, "x"))                      # extraction
     try:
+        # Every worker process is forked NOW, before any thread of this process starts a
+        # subprocess (a fork between the pipe() and the exec of a concurrent Popen inherits
+        # its pipes and blocks it for ever).
         pool.warm()
         cpool.warm(max(2, NWORKERS // 2))
-        _run2(run, quick, root, pool, cpool)
+        xpool.warm()
+        box = {}
+
+        def cases_thread():
+            try:
+                box["ok"] = load_cases()
+            except BaseException as e:  # noqa: BLE001
+                box["err"] = e
+        th = threading.Thread(target=cases_thread)
+        th.start()                      # TLC writes the case families out while the sources are read
+        cands = candidate_names()
+        th.join()
+        if "err" in box:
+            raise box["err"]
+        cases, cres = box["ok"]
+        run.add_tlc(cres, "SecureCases: argument tuples, module specs and front-end cases of SecureOps written out")
+        _run2(run, quick, root, pool, cpool, xpool, cases, cands)
     finally:
         pool.close()
         cpool.close()
+        xpool.close()
 
 
-def _run2(run, quick, root, pool, cpool):
-    data, side = extract(os.path.join(root, "x"), run.tier, run.seed)
+def pick_specs(cases, quick, seed, leg):
+    """Module specs tried per configuration: all of them, or (quick) the core
+    family and a seeded sample of the rest."""
+    if not quick:
+        return list(cases["specs"])
+    core = list(cases["core"])
+    ck = {json.dumps(c, sort_keys=True) for c in core}
+    rest = [c for c in cases["specs"] if json.dumps(c, sort_keys=True) not in ck]
+    rng = random.Random(seed * 2 + int(leg))
+    return core + rng.sample(rest, min(len(rest), QUICK_SPEC_SAMPLE))
+
+
+QUICK_SPEC_SAMPLE = 280
+
+
+def _run2(run, quick, root, pool, cpool, xpool, cases, cands):
+    # the front ends run beside everything else (subprocesses of this process)
+    clix = cf.ThreadPoolExecutor(max_workers=4)
+    data, side = extract(None, run.tier, run.seed, cases, xpool, cands)
+    xpool.close()
     side["bootsym"] = pick_bootsym(side)
     info = side["info"]
+    forb_pairs = [(i, side["rows"][i]["fname"]) for i in sorted(side["forbidden"])
+                  if side["forbidden"][i] and side["rows"][i].get("known") and i != "run"]
+    cli_root = os.path.join(root, "cli")
+    os.makedirs(cli_root, exist_ok=True)
+    f_cli = [clix.submit(run_cli, c, forb_pairs, cli_root) for c in cases["cli"]]
     run.cov["natives"] = {
-        "names_from_bind_native": len(side["ids"]) - (1 if "run" in side["ids"] else 0),
+        "names_the_binder_knows": len([i for i in side["ids"] if side["rows"][i].get("known") and i != "run"]),
+        "name_discovery": {k: info[k] for k in (
+            "candidates_tried", "names_known", "names_only_the_language_binder_knows",
+            "names_known_but_not_in_the_comparison_chain", "names_in_the_comparison_chain_but_not_known",
+            "function_classes", "classes_no_name_binds", "classes_not_instantiable")},
         "functions": sum(1 for r in data["natives"].values() if r["isFunc"]),
         "declared_not_secure": side["insecure"], "measured_os_touching":
             {i: side["rows"][i]["touch"] for i in side["touching"]},
@@ -1351,6 +1839,16 @@ def _run2(run, quick, root, pool, cpool):
     }
     if info["bind_errors"]:
         run.drift("native-name-not-bindable", info["bind_errors"])
+    if info["language_binder_error"]:
+        run.drift("language-level-name-discovery-failed", info["language_binder_error"])
+    for q in info["classes_not_instantiable"]:
+        run.drift("function-class-not-instantiable (not classified)", q)
+    for q in info["classes_no_name_binds"]:
+        r = side["rows"]["class:" + q]
+        if r["osTouching"] or not r["secureAttr"]:
+            run.drift("forbidden-function-class-that-no-name-binds", {q: r["touch"], "secureAttr": r["secureAttr"]})
+    for n in info["names_known_but_not_in_the_comparison_chain"]:
+        run.drift("native-name-registered-outside-the-comparison-chain", n)
     for i in info["insecure_not_observed_touching"]:
         run.drift("declared-not-secure-but-no-os-event-observed", i)
     for i, ks in info["unjudged"].items():
@@ -1437,16 +1935,27 @@ def _run2(run, quick, root, pool, cpool):
     if True:
         # the call sweeps contain the few slow invocations: start them first
         jobs = []
+        wcases = {"shapes": cases["shapes"]}
         for leg in (True, False):
-            jobs.append((wdata, leg, "base", "", quick))
+            jobs.append((wdata, wcases, leg, "base", "", run.tier, True))
             for m in side["modules"]:
-                jobs.append((wdata, leg, "qual", m, quick))
-                jobs.append((wdata, leg, "unq", m, quick))
+                jobs.append((wdata, wcases, leg, "qual", m, run.tier, True))
+            for m in side["modules"]:
+                # the same function values through a second access path: the first round's tuples
+                # (quick) / the quick family (thorough)
+                jobs.append((wdata, wcases, leg, "unq", m, "quick", not quick))
         f_calls = [cpool.ex.submit(task_calls, j) for j in jobs]
         groups = group_edges(edges)
         f_edges = [pool.ex.submit(task_edges, (wdata,) + g) for g in groups]
-        f_gate = pool.ex.submit(task_gate, wdata)
-        f_reqs = [cpool.ex.submit(task_requires, (wdata, leg)) for leg in (False, True)]
+        gids = [i for i in side["ids"] if side["rows"][i].get("known")]
+        f_gates = [pool.ex.submit(task_gate, (wdata, gids[i:i + 16])) for i in range(0, len(gids), 16)]
+        f_reqs = []
+        nspecs = {}
+        for leg in (False, True):
+            specs = pick_specs(cases, quick, run.seed, leg)
+            nspecs[leg] = len(specs)
+            f_reqs += [cpool.ex.submit(task_requires, (wdata, leg, specs[i:i + 48]))
+                       for i in range(0, len(specs), 48)]
 
         def get(f):
             try:
@@ -1455,7 +1964,7 @@ def _run2(run, quick, root, pool, cpool):
                 raise MachineryError("a worker process died: " + str(e))
         edge_results = [get(f) for f in f_edges]
         _t("edges replayed")
-        gate_results = get(f_gate)
+        gate_results = [g for f in f_gates for g in get(f)]
         call_results = [get(f) for f in f_calls]
         req_results = [get(f) for f in f_reqs]
         _t("calls done")
@@ -1471,14 +1980,18 @@ def _run2(run, quick, root, pool, cpool):
         for kind, smp in r["drift"]:
             run.drift(kind, {"cfg": cfgs, **smp})
         for item in r["lasts"]:
+            if item.get("boot_failed"):
+                boot_failed.append(cfgs + " after " + item["desc"] + ":" + item["boot_failed"])
+                continue
             nact += 1
             for kind, smp in item["drift"]:
                 run.drift(kind, {"cfg": cfgs, "hist": [act_str(side, a) for a in r["hist"] + [item["act"]]], **smp})
+        r["lasts"] = [item for item in r["lasts"] if not item.get("boot_failed")]
         if not r["sec"]:
             continue
         leg = r["leg"]
         # the shared prefix: one interpreter, observed after its construction and after every action
-        events.append({"op": "new", "sec": True, "leg": leg})
+        events.append(new_event(leg))
         metas.append(("new", "", {}, []))
         descs = [p["desc"] for p in r["prefix"]]
         for i, p in enumerate(r["prefix"]):
@@ -1489,7 +2002,7 @@ def _run2(run, quick, root, pool, cpool):
         # every last action ran on its own copy of that interpreter
         for item in r["lasts"]:
             nsec_edges += 1
-            events.append({"op": "new", "sec": True, "leg": leg})
+            events.append(new_event(leg))
             metas.append(("new", "", {}, []))
             key = f"A:legacy={int(leg)}:" + " ; ".join(descs[1:] + [item["desc"]])
             case = {"kind": "edge", "sec": True, "leg": leg, "hist": r["hist"] + [item["act"]]}
@@ -1498,7 +2011,7 @@ def _run2(run, quick, root, pool, cpool):
     if len(events) > 3:
         run.sample({"OBS": events[1:4]})
     for g in gate_results:
-        events.append({"op": "new", "sec": True, "leg": False})
+        events.append(new_event(False))
         metas.append(("new", "", {}, []))
         events.append(g["event"])
         metas.append(("G:" + g["desc"], g["desc"], g["case"], g["bad"]))
@@ -1514,7 +2027,7 @@ def _run2(run, quick, root, pool, cpool):
         nfunc += r["nfunc"]
         if r["timeouts"]:
             run.drift("call-timeout", {"mod": r["mod"], "form": r["form"], "n": r["timeouts"]})
-        events.append({"op": "new", "sec": True, "leg": r["leg"]})
+        events.append(new_event(r["leg"]))
         metas.append(("new", "", {}, []))
         for it in r["items"]:
             events.append(it["event"])
@@ -1526,7 +2039,9 @@ def _run2(run, quick, root, pool, cpool):
             continue
         for it in r["items"]:
             nreq += 1
-            events.append({"op": "new", "sec": True, "leg": r["leg"]})
+            if not it["raised"] and not it["event"]["ran"]:
+                run.drift("require-of-a-spec-that-names-no-module-did-not-raise", it["desc"])
+            events.append(new_event(r["leg"]))
             metas.append(("new", "", {}, []))
             events.append(it["event"])
             metas.append((f"R:legacy={int(r['leg'])}:" + it["desc"], it["desc"], it["case"], it["bad"]))
@@ -1534,6 +2049,34 @@ def _run2(run, quick, root, pool, cpool):
         j = next((i for i, m in enumerate(metas) if m[0].startswith("B:") and "(F" in m[0]), None)
         if j is not None:
             run.sample({"CALL": metas[j][1], "obs": events[j]})
+    # the front ends
+    ncli = 0
+    cli_seen = []
+    for c, f in zip(cases["cli"], f_cli):
+        try:
+            o = f.result(timeout=900)
+        except Exception as e:  # noqa: BLE001
+            run.drift("front-end-could-not-be-started", {"case": c, "error": type(e).__name__})
+            continue
+        cmdline = "python -m ckl." + c["fe"] + "".join(" " + _CLI_FLAGS[x] for x in c["opts"]) + \
+            (" probe.ckl" if c["fe"] == "run" else "  (probe lines on stdin)")
+        cli_seen.append({"cmd": cmdline, "flag": o["flag"], "bound": o["bound"], "done": o["done"]})
+        if not o["done"] or o["flag"] not in ("TRUE", "FALSE"):
+            run.drift("front-end-probe-did-not-complete", {"cmd": cmdline, "rc": o["rc"], "tail": o.get("tail", "")})
+            continue
+        ncli += 1
+        if not c["secure"]:
+            # not asked to be secure: not judged; the configuration is compared as drift
+            if o["flag"] != "FALSE":
+                run.drift("front-end-constructs-a-secure-interpreter-unasked", {"cmd": cmdline})
+            continue
+        events.append(new_event(c["legacy"], via=c["fe"]))
+        metas.append(("new", "", {}, []))
+        events.append({"op": "obs", "phase": "cli", "os": [], "flag": o["flag"], "nbad": len(o["bound"]),
+                       "canary": True, "ran": False})
+        metas.append(("C:" + cmdline, cmdline, {"kind": "cli", "fe": c["fe"], "opts": c["opts"]}, sorted(o["bound"])))
+    clix.shutdown(wait=False)
+    run.sample({"CLI": cli_seen[:2]})
     _t(f"{len(events)} events collected")
     rejected = validate(run, events, metas, "Secure_Trace validation of observed secure interpreters")
     _t("trace validated")
@@ -1550,26 +2093,41 @@ def _run2(run, quick, root, pool, cpool):
         if not run.violations:
             raise MachineryError("nothing was replayed")
     nobs = sum(1 for e in events if e["op"] == "obs")
-    run.cov["traces_validated_against_impl"] = nsec_edges + len(gate_results) + len(call_results) + nreq
-    run.cov["evaluations"] = nact + len(gate_results) + ncalls + nreq + run.cov["natives"]["classification_calls"]
-    run.cov["distinct_nontrivial"] = len(edges) + len(gate_results) + ncalls + nreq
+    run.cov["traces_validated_against_impl"] = nsec_edges + len(gate_results) + len(call_results) + nreq + ncli
+    run.cov["evaluations"] = nact + len(gate_results) + ncalls + nreq + ncli + \
+        run.cov["natives"]["classification_calls"]
+    run.cov["distinct_nontrivial"] = len(edges) + len(gate_results) + ncalls + nreq + ncli
     run.cov["rule"] = ("binding A: one replay per distinct (configuration, action history) transition exported "
-                       "by TLC; gate: one direct binder call per native x {no alias, alias, flag-name alias}; "
-                       "binding B: one per (configuration, require form, symbol, argument tuple) and one per "
-                       "(configuration, require with a path-like module spec); evaluations adds the classification calls")
+                       "by TLC (histories include other interpreters constructed by the host, spelled and foreign "
+                       "requires); gate: one direct binder call per native x {no alias, alias, flag-name alias}; "
+                       "binding B: one per (configuration, require form, symbol, argument tuple of CallShapes), one "
+                       "per (configuration, module spec of ForeignSpecs) and one per (front end, option set); "
+                       "evaluations adds the classification calls")
     run.cov["exhaustive"] = True
     run.cov["observations_validated"] = nobs
     run.cov["observations_rejected"] = rejected
     run.cov["model_counterexample"] = model_violated
     run.cov["binding_B"] = {"symbols": nsym, "function_symbols": nfunc, "calls": ncalls,
-                            "setups": len(call_results), "require_path_forms": nreq}
+                            "setups": len(call_results), "require_module_specs": nreq,
+                            "module_specs_in_the_family": len(cases["specs"]), "front_end_runs": ncli}
     run.cov["binding_A"] = {"behaviours_exported_by_tlc": exported, "behaviours_replayed": len(edges),
                             "secure_behaviours": nsec_edges, "last_actions_replayed": nact}
-    run.cov["bounds"] = {"cfg": cfg, "argument_tuples": len(ARG_TUPLES) + (0 if quick else len(MORE_TUPLES)),
+    run.cov["bounds"] = {"cfg": cfg,
+                         "argument_tuples_per_arity": [len(x) for x in cases["shapes"][run.tier]],
+                         "argument_tuples_narrow": len(_BASE_SHAPES),
+                         "other_interpreter_configs": data["otherConfigs"],
                          "shadow_forms": len(SHADOW_FORMS), "assign_forms": len(ASSIGN_FORMS)}
     run.assumptions += [
-        "osTouching is measured with the path-like/command-like argument tuples of ARG_TUPLES; a native that "
-        "touches the OS only for other arguments is not classified (binding B uses the same tuples)",
+        "osTouching is measured with the argument tuples of SecureOps!CallShapes (every path-like / command-like "
+        "argument in every parameter position next to every companion: callback, streams, integer, map, list, "
+        "booleans, encoding, NULL); a native that touches the OS only for yet other arguments is not classified "
+        "(binding B uses the same tuples)",
+        "the names the binder knows are the candidate strings (string constants of the package's sources, "
+        "bind_native arguments of the bundled modules, names of the function classes) that bind something on an "
+        "open gate; a name computed at run time from no such constant is not found",
+        "the command line front ends are judged as the way a user obtains a secure-mode interpreter: with "
+        "--secure the program must see the flag on and be unable to bind a forbidden native; runs without "
+        "--secure are not judged",
         "reading an environment variable or the working directory (get_env) is not file, directory or "
         "process access and is not judged; it is listed as drift",
         "reads of the host Python installation (lazy imports of the host runtime) are permitted at any time",
@@ -1587,7 +2145,8 @@ def _run2(run, quick, root, pool, cpool):
 def replay(run, case):
     root = tempfile.mkdtemp(prefix="c09-root-")
     try:
-        data, side = extract(os.path.join(root, "x"), "quick", run.seed)
+        cases, _res = load_cases()
+        data, side = extract(os.path.join(root, "x"), "quick", run.seed, cases)
         side["bootsym"] = pick_bootsym(side)
         wdata = {"classmap": side["classmap"], "forbidden": side["forbidden"], "ids": side["ids"],
                  "natives": data["natives"], "probe": side["probe"], "bootmod": side["bootmod"],
@@ -1599,7 +2158,7 @@ def replay(run, case):
                 r = pool.map(task_edges, [(wdata, True, case["leg"], case["hist"], [])])[0]
                 if r.get("boot_failed"):
                     raise MachineryError("interpreter cannot be constructed: " + str(r["boot_failed"]))
-                events.append({"op": "new", "sec": True, "leg": case["leg"]})
+                events.append(new_event(case["leg"]))
                 metas.append(("new", "", {}, []))
                 descs = [p["desc"] for p in r["prefix"]]
                 for i, p in enumerate(r["prefix"]):
@@ -1607,20 +2166,32 @@ def replay(run, case):
                     metas.append((f"A:legacy={int(case['leg'])}:" + " ; ".join(descs[1:i + 1]),
                                   " ; ".join(descs[:i + 1]), case, p["bad"]))
             elif case["kind"] == "gate":
-                for g in pool.map(task_gate, [dict(wdata, ids=[case["id"]])])[0]:
+                for g in pool.map(task_gate, [(wdata, [case["id"]])])[0]:
                     if g["case"]["alias"] == case["alias"]:
-                        events.append({"op": "new", "sec": True, "leg": False})
+                        events.append(new_event(False))
                         metas.append(("new", "", {}, []))
                         events.append(g["event"])
                         metas.append(("G:" + g["desc"], g["desc"], g["case"], g["bad"]))
             elif case["kind"] == "require":
-                r = pool.map(task_requires, [(wdata, case["leg"])])[0]
+                r = pool.map(task_requires, [(wdata, case["leg"], [case["spec"]])])[0]
                 for it in r["items"]:
-                    if it["case"]["form"] == case["form"]:
-                        events.append({"op": "new", "sec": True, "leg": case["leg"]})
-                        metas.append(("new", "", {}, []))
-                        events.append(it["event"])
-                        metas.append((f"R:legacy={int(case['leg'])}:" + it["desc"], it["desc"], it["case"], it["bad"]))
+                    events.append(new_event(case["leg"]))
+                    metas.append(("new", "", {}, []))
+                    events.append(it["event"])
+                    metas.append((f"R:legacy={int(case['leg'])}:" + it["desc"], it["desc"], it["case"], it["bad"]))
+            elif case["kind"] == "cli":
+                forb_pairs = [(i, side["rows"][i]["fname"]) for i in sorted(side["forbidden"])
+                              if side["forbidden"][i] and side["rows"][i].get("known") and i != "run"]
+                c = {"fe": case["fe"], "opts": case["opts"]}
+                o = run_cli(c, forb_pairs, root)
+                cmdline = "python -m ckl." + c["fe"] + "".join(" " + _CLI_FLAGS[x] for x in c["opts"])
+                if not o["done"]:
+                    raise MachineryError("the front end probe did not complete: " + str(o.get("tail", ""))[:200])
+                events.append({"op": "new", "via": c["fe"], "opts": list(c["opts"])})
+                metas.append(("new", "", {}, []))
+                events.append({"op": "obs", "phase": "cli", "os": [], "flag": o["flag"], "nbad": len(o["bound"]),
+                               "canary": True, "ran": False})
+                metas.append(("C:" + cmdline, cmdline, case, sorted(o["bound"])))
             elif case["kind"] == "call":
                 setup = case.get("setup", "")
                 form, mod = "base", ""
@@ -1628,8 +2199,10 @@ def replay(run, case):
                     parts = setup.split()
                     mod = parts[1]
                     form = "unq" if len(parts) > 2 else "qual"
-                r = pool.map(task_calls, [(wdata, case["leg"], form, mod, True)])[0]
-                events.append({"op": "new", "sec": True, "leg": case["leg"]})
+                wide = bool(case.get("wide", True))
+                r = pool.map(task_calls, [(wdata, {"shapes": cases["shapes"]}, case["leg"], form, mod,
+                                           "thorough" if wide else "quick", wide)])[0]
+                events.append(new_event(case["leg"]))
                 metas.append(("new", "", {}, []))
                 for it in r["items"]:
                     c = it["case"]
